@@ -74,7 +74,15 @@ def analyse(ctx, case, run, S):
         mc = cfg['members'][mi]
         n, x, m, rounds = cfg['n'], cfg['x'], mc['m'], mc['rounds']
         v = run.out['verify'][0]
-        ids = member_challenges(run, v['logs_after'][mi])['ids']
+        try:
+            ids = member_challenges(run, v['logs_after'][mi])['ids']
+        except AssertionError as e:
+            # the member's transcript after verification does not contain the chain y, z, e_0, .., e: some challenge was drawn from a side copy
+            # of the transcript, so later challenges cannot depend on what that copy absorbed
+            ctx.expect(False, 'C04:L-not-bound', '%s%s: the transcript after verification holds the challenges %s instead of y, z, one e per round, e: a challenge was drawn from a copy '
+                       'of the transcript that was never written back' % (case['name'], tag, str(e)[:60]), cfg, 'challenges_unchanged',
+                       {'n': n, 'x': x, 'm': 1, 'cap': 1, 'datum': 'L_0', 'rounds': rounds, 'challenge': 'e'})
+            continue
         blobs = run.core['blobs']
         el = lambda e: 'elem_%d' % blobs[info['elems'][e]]['k']
         data = {}
@@ -105,7 +113,7 @@ def analyse(ctx, case, run, S):
         for cname, lid, deps in stage:
             for dname, atom in sorted(deps.items()):
                 asserts, atoms = inj.query(('log', lid), {atom}, universe)
-                rd = dict({'n': n, 'x': x, 'm': m, 'cap': mc['cap'], 'datum': dname, 'rounds': rounds}, **brd)
+                rd = dict({'n': n, 'x': x, 'm': m, 'cap': mc['cap'], 'datum': dname, 'rounds': rounds, 'challenge': cname}, **brd)
                 ctx.solve(S, 'log-injective', '%s%s: challenge %s depends on %s' % (case['name'], tag, cname, dname), asserts, cfg=cfg,
                           key='C04:%s-not-bound' % dname.split(' ')[0].split('_')[0], pred='challenges_unchanged', detail=rd)
         # integer fields: bit length, extension degree, aggregation factor are absorbed as their own 8-byte little-endian encodings, in that order after the generators
